@@ -25,6 +25,7 @@ from harness import c02
 from harness.common import REPO, VERIF, Check, nat, to_coq, Raw
 
 F15_SIG = 'ctor-error-masked-by-del-ctx'
+FC17A_SIG = 'given-starting-mass-leaves-fuel-load-undefined'
 NO_CONVERGENCE = -2
 INIT_ATTRS = {'options', 'frac_step_clm', 'frac_step_crz', 'frac_step_des', 'fuel_LHV'}
 
@@ -126,6 +127,20 @@ def snapshot(traj):
     return out
 
 
+def apply_options(builder, opts):
+    """What a caller does to re-use a builder with other settings: replace its public option attributes."""
+    import AEIC.trajectories.builders as tb
+    builder.options = tb.Options(iterate_mass=opts['iterate'], max_mass_iters=opts['max_iters'],
+                                 mass_iter_reltol=opts['reltol'], use_weather=opts['use_weather'])
+    builder.frac_step_clm, builder.frac_step_crz, builder.frac_step_des = opts['frac']
+
+
+def settings_of(builder):
+    import dataclasses
+    return (dataclasses.asdict(builder.options), builder.frac_step_clm, builder.frac_step_crz, builder.frac_step_des,
+            builder.fuel_LHV)
+
+
 def fly_once(builder, fl, wx: Path, reltol: float):
     """One call of builder.fly with every _fly_iteration recorded."""
     import numpy as np
@@ -145,10 +160,13 @@ def fly_once(builder, fl, wx: Path, reltol: float):
 
     Builder._fly_iteration = rec
     out = {'iters': iters}
+    before = settings_of(builder)
+    kw = {'starting_mass': fl['given']} if fl.get('given') is not None else {}
     try:
         with hidden(wx, fl.get('hide_wx', False)):
-            traj = builder.fly(pm, mission_of(fl))
+            traj = builder.fly(pm, mission_of(fl), **kw)
         out['kind'] = 'flown'
+        out['traj'] = traj
         out['snap'] = snapshot(traj)
         out['leftover'] = abs(float(np.array(traj.fuel_mass)[-1]) / float(traj.total_fuel_mass))
     except Exception as e:  # noqa: BLE001
@@ -159,6 +177,7 @@ def fly_once(builder, fl, wx: Path, reltol: float):
         out['context'] = [type(c).__name__, str(c)[:200]] if c is not None else None
     finally:
         Builder._fly_iteration = orig
+    out['settings_changed'] = settings_of(builder) != before
     out['has_ctx'] = 'ctx' in builder.__dict__
     out['own'] = sorted(set(builder.__dict__) - INIT_ATTRS)
     return out
@@ -183,6 +202,11 @@ def ctor_probe(opts, fl, wx: Path):
 
 VALID = [('BOS', 'LAX'), ('JFK', 'MIA'), ('SEA', 'DEN'), ('ORD', 'SFO'), ('NAN', 'HNL'), ('LYR', 'YLT'),
          ('LPB', 'CUZ'), ('BOS', 'ORD'), ('LAX', 'SEA')]
+# performance models that share the 41000 ft ceiling (hence the cruise level) but differ in every value
+TABLES = [None,
+          {'tas': 0.9, 'rocd': 1.0, 'ff': 0.7, 'mass': 1.0, 'ceiling_ft': 41000, 'payload': 22422},
+          {'tas': 1.05, 'rocd': 0.8, 'ff': 1.3, 'mass': 1.0, 'ceiling_ft': 41000, 'payload': 18000, 'ff_climb': 3.0},
+          {'tas': 1.0, 'rocd': 1.0, 'ff': 1.0, 'mass': 1.0, 'ceiling_ft': 41000, 'payload': 22422, 'ff_climb': 5.0}]
 
 
 def gen_flight(rng, opts):
@@ -197,44 +221,56 @@ def gen_flight(rng, opts):
         if r < 0.85:
             return {'kind': 'missing-weather-dir', 'o': 'BOS', 'd': 'JFK', 'lf': 1.0, 'hide_wx': True}
         return {'kind': 'unknown-airport', 'o': 'BOS', 'd': 'QQQ', 'lf': 1.0}
-    if r < 0.42:
+    if r < 0.48:
         o, d = rng.choice(VALID)
         fl = {'kind': 'valid', 'o': o, 'd': d, 'lf': rng.choice([1.0, 0.9, 0.75])}
-        if rng.random() < 0.3:
-            fl['table'] = {'tas': 1.0, 'rocd': 1.0, 'ff': 1.0, 'mass': 1.0, 'ceiling_ft': 41000, 'payload': 22422,
-                           'ff_climb': rng.choice([3.0, 5.0])}
+        fl['table'] = rng.choice(TABLES)
+        if rng.random() < 0.25:
+            fl['kind'] = 'valid-given-mass'
+            fl['given'] = rng.choice([62000.0, 70000.0, 78000.0])
         return fl
-    if r < 0.55:
+    if r < 0.58:
         o, d = rng.choice([('XXX', 'LAX'), ('BOS', 'ZZZ'), ('QQQ', 'QQQ')])
-        return {'kind': 'unknown-airport', 'o': o, 'd': d, 'lf': 1.0}
-    if r < 0.68:
+        return {'kind': 'unknown-airport', 'o': o, 'd': d, 'lf': 1.0, 'given': 70000.0 if rng.random() < 0.2 else None}
+    if r < 0.70:
         o, d = rng.choice([('HI4', 'LAX'), ('LAX', 'HI3'), ('BOS', 'HI2'), ('HI3', 'LXA')])
         return {'kind': 'airport-above-cruise', 'o': o, 'd': d, 'lf': 1.0}
-    if r < 0.82:
+    if r < 0.84:
         o, d = rng.choice([('BOS', 'LAX'), ('MAD', 'WLG'), ('LHR', 'LAX')])
-        return {'kind': 'outside-envelope', 'o': o, 'd': d, 'lf': 0.0 if (o, d) == ('BOS', 'LAX') else 1.0}
-    if r < 0.9:
+        return {'kind': 'outside-envelope', 'o': o, 'd': d, 'lf': 0.0 if (o, d) == ('BOS', 'LAX') else 1.0,
+                'table': rng.choice(TABLES[:2])}
+    if r < 0.92:
         o = rng.choice(['BOS', 'DEN'])
         return {'kind': 'too-short', 'o': o, 'd': o, 'lf': 1.0}
     o, d = rng.choice(VALID)
-    return {'kind': 'valid', 'o': o, 'd': d, 'lf': 1.0}
+    return {'kind': 'valid', 'o': o, 'd': d, 'lf': 1.0, 'table': rng.choice(TABLES)}
+
+
+def gen_opts(rng, use_weather):
+    iterate = (not use_weather) and rng.random() < 0.45
+    f = rng.choice([0.02, 0.02, 0.01])
+    return {'iterate': iterate, 'max_iters': rng.choice([1, 3, 5, 5, 8]) if iterate else 5,
+            'reltol': rng.choice([1e-2, 5e-2, 5e-2, 1e-3, 1e-6]) if iterate else 1e-2, 'use_weather': use_weather,
+            'frac': [f, f, f] if rng.random() < 0.7 or use_weather else rng.choice([[0.02, 0.0125, 0.02], [0.015, 0.02, 0.008]])}
 
 
 def gen_sequence(rng, weather_ok: bool):
-    use_weather = weather_ok and rng.random() < 1.0
-    iterate = (not use_weather) and rng.random() < 0.45
-    f = rng.choice([0.02, 0.02, 0.01])
-    opts = {'iterate': iterate, 'max_iters': rng.choice([1, 3, 5, 5, 8]) if iterate else 5,
-            'reltol': rng.choice([1e-2, 5e-2, 5e-2, 1e-3, 1e-6]) if iterate else 1e-2, 'use_weather': use_weather,
-            'frac': [f, f, f] if rng.random() < 0.8 or use_weather else [0.02, 0.0125, 0.02]}
+    use_weather = weather_ok
+    opts = gen_opts(rng, use_weather)
     n = rng.randint(2, 3) if use_weather else rng.randint(2, 8)
-    flights = [gen_flight(rng, opts) for _ in range(n)]
-    if not any(fl['kind'] != 'valid' for fl in flights):
-        flights[rng.randrange(n)] = {'kind': 'unknown-airport', 'o': 'XXX', 'd': 'LAX', 'lf': 1.0}
-    if flights[-1]['kind'] != 'valid' and not use_weather:
+    flights = []
+    for _ in range(n):
+        if not use_weather and rng.random() < 0.3:
+            opts = gen_opts(rng, use_weather)          # the caller re-configures the builder between flights
+        fl = gen_flight(rng, opts)
+        fl['opts'] = opts
+        flights.append(fl)
+    if not any(not fl['kind'].startswith('valid') for fl in flights):
+        flights[rng.randrange(n)] = {'kind': 'unknown-airport', 'o': 'XXX', 'd': 'LAX', 'lf': 1.0, 'opts': flights[0]['opts']}
+    if not flights[-1]['kind'].startswith('valid') and not use_weather:
         o, d = rng.choice(VALID)
-        flights.append({'kind': 'valid', 'o': o, 'd': d, 'lf': 1.0})       # a flight after the last failure
-    return {'opts': opts, 'flights': flights}
+        flights.append({'kind': 'valid', 'o': o, 'd': d, 'lf': 1.0, 'table': rng.choice(TABLES), 'opts': opts})
+    return {'flights': flights}
 
 
 # ----------------------------------------------------------------------------------------------
@@ -268,64 +304,121 @@ def coq_script(probe, fresh):
     return f"(mkscript {ctor} [{'; '.join(its)}])"
 
 
-def check_sequences(chk: Check, seqs, guarded: bool, wx: Path):
+def normalise(seq):
+    """older corpus entries carry one option set for the whole sequence"""
+    if 'opts' in seq:
+        for fl in seq['flights']:
+            fl.setdefault('opts', seq['opts'])
+    return seq
+
+
+def check_sequences(chk: Check, seqs, guarded: bool, gfix: bool, wx: Path):
+    import numpy as np
     exprs, runs = [], []
     for seq in seqs:
-        opts, flights = seq['opts'], seq['flights']
-        hist_builder = make_builder(opts)
+        seq = normalise(seq)
+        flights = seq['flights']
+        hist_builder = make_builder(flights[0]['opts'])
+        # module-level state: the last flight on a fresh builder BEFORE anything else happens in this sequence
+        before = fly_once(make_builder(flights[-1]['opts']), flights[-1], wx, flights[-1]['opts']['reltol'])
         hist, fresh, probes = [], [], []
         for fl in flights:
-            hist.append(fly_once(hist_builder, fl, wx, opts['reltol']))
-            fresh.append(fly_once(make_builder(opts), fl, wx, opts['reltol']))
-            probes.append(ctor_probe(opts, fl, wx))
-        runs.append((hist, fresh, probes))
+            apply_options(hist_builder, fl['opts'])
+            hist.append(fly_once(hist_builder, fl, wx, fl['opts']['reltol']))
+            fresh.append(fly_once(make_builder(fl['opts']), fl, wx, fl['opts']['reltol']))
+            probes.append(ctor_probe(fl['opts'], fl, wx))
+        # returned trajectories are the caller's: later flights must not have touched them, nor share memory
+        alias = None
+        trajs = [(j, h['traj']) for j, h in enumerate(hist) if h.get('traj') is not None]
+        for j, t in trajs:
+            if snapshot(t) != hist[j]['snap']:
+                alias = f'the trajectory returned by flight {j} changed while later flights were flown'
+        for a in range(len(trajs)):
+            for b in range(a + 1, len(trajs)):
+                for f in ('flight_time', 'aircraft_mass'):
+                    if np.shares_memory(trajs[a][1]._data[f], trajs[b][1]._data[f]):
+                        alias = f'trajectories of flights {trajs[a][0]} and {trajs[b][0]} share their {f} buffer'
+        for h in hist + fresh + [before]:
+            h.pop('traj', None)
+        runs.append((hist, fresh, probes, before, alias))
         ss = '[' + '; '.join(coq_script(p, f) for p, f in zip(probes, fresh)) + ']'
         ids = '[' + '; '.join(f'{i}%Z' for i in range(len(flights))) + ']'
-        given = '[' + '; '.join('None' for _ in flights) + ']'
-        o = f"(mkopts false {to_coq(opts['iterate'])} {nat(opts['max_iters'])} 0%Z)"
-        exprs.append(f"run_history {to_coq(guarded)} {o} {ss} {ids} {given}")
+        given = '[' + '; '.join(f'(Some {i * 1000}%Z)' if fl.get('given') is not None else 'None'
+                                for i, fl in enumerate(flights)) + ']'
+        os_ = '[' + '; '.join(f"(mkopts false {to_coq(fl['opts']['iterate'])} {nat(fl['opts']['max_iters'])} {k}%Z)"
+                              for k, fl in enumerate(flights)) + ']'
+        exprs.append(f"run_history {to_coq(guarded)} {to_coq(gfix)} {os_} {ss} {ids} {given}")
     models = chk.coq_eval(HEADER, exprs, shard=max(1, len(exprs) // 16 + 1), label='histories')
-    for seq, (hist, fresh, probes), mo in zip(seqs, runs, models):
-        flights, opts = seq['flights'], seq['opts']
+    for seq, (hist, fresh, probes, before, alias), mo in zip(seqs, runs, models):
+        flights = seq['flights']
         kinds = [fl['kind'] for fl in flights]
         failed_before = any(h['kind'] != 'flown' for h in hist[:-1])
-        chk.case(seq, nontrivial=failed_before and len({fl['kind'] for fl in flights}) >= 2)
+        chk.case(seq, nontrivial=failed_before and len(set(kinds)) >= 2)
         for k in kinds:
             chk.count('flight:' + k)
-        chk.count('builder:' + ('weather' if opts['use_weather'] else 'iterate' if opts['iterate'] else 'plain'))
-        bad = None
-        sig = None
+        o0 = flights[0]['opts']
+        chk.count('builder:' + ('weather' if o0['use_weather'] else 'iterate' if o0['iterate'] else 'plain'))
+        if any(fl['opts'] != o0 for fl in flights):
+            chk.count('builder:options-switched')
+        if len({json.dumps(fl.get('table'), sort_keys=True) for fl in flights}) > 1:
+            chk.count('builder:performance-model-switched')
+        problems = []          # (message, signature) per flight; a known finding on one flight does not hide the others
         for h in hist:
             chk.count('outcome:' + (h['kind'] if h['kind'] != 'raised' else f"reason{h['code']}"))
         for j, (fl, h, f, p) in enumerate(zip(flights, hist, fresh, probes)):
-            # (a) bit-identical to a brand-new builder
-            same = (h['kind'] == f['kind'] and h.get('snap') == f.get('snap') and h.get('exc') == f.get('exc'))
-            if not same:
-                bad = f"flight {j} ({fl['kind']}) after {j} earlier flights differs from a fresh builder: {h.get('exc') or 'trajectory'} vs {f.get('exc') or 'trajectory'}"
-                break
-            # (c) nothing of the flight is left on the builder
-            if h['has_ctx']:
-                bad = f"flight {j} ({fl['kind']}) leaves the simulation context on the builder"
-                break
-            # (b) a refusal is the stage's own exception
-            if h['kind'] != 'flown':
-                if p is not None and h.get('exc') != p['exc']:
-                    bad = (f"flight {j} ({fl['kind']}): the context constructor refuses with {p['exc'][0]}: {p['exc'][1]!r}, "
-                           f"fly raises {h['exc'][0]}: {h['exc'][1]!r}")
-                    if h['kind'] == 'attrctx' and h['context'] == p['exc'] and not guarded:
-                        sig = F15_SIG
-                    break
-                if h['kind'] == 'attrctx' or (p is None and h['code'] not in DOCUMENTED):
-                    bad = f"flight {j} ({fl['kind']}): rejected with an unrelated internal error {h['exc'][0]}: {h['exc'][1]!r}"
-                    break
-            # (d) mass iteration
-            if h['kind'] == 'flown' and opts['iterate'] and not (h['leftover'] < opts['reltol']):
-                bad = (f"flight {j} ({fl['kind']}): returned with leftover trip fuel {h['leftover']:.3e} of the fuel load, "
-                       f"tolerance {opts['reltol']:.1e}")
-                break
+            opts = fl['opts']
+            bad, sig = None, None
+            for _once in (0,):
+              # (a) bit-identical to a brand-new builder
+              same = (h['kind'] == f['kind'] and h.get('snap') == f.get('snap') and h.get('exc') == f.get('exc'))
+              if not same:
+                  bad = f"flight {j} ({fl['kind']}) after {j} earlier flights differs from a fresh builder: {h.get('exc') or 'trajectory'} vs {f.get('exc') or 'trajectory'}"
+                  break
+              # (c) nothing of the flight is left on the builder; its settings are what the caller set
+              if h['has_ctx']:
+                  bad = f"flight {j} ({fl['kind']}) leaves the simulation context on the builder"
+                  break
+              if h['settings_changed'] or f['settings_changed']:
+                  bad = f"flight {j} ({fl['kind']}) changed the builder's options"
+                  break
+              # (b) a refusal is the stage's own exception
+              if h['kind'] != 'flown':
+                  if p is not None and h.get('exc') != p['exc']:
+                      bad = (f"flight {j} ({fl['kind']}): the context constructor refuses with {p['exc'][0]}: {p['exc'][1]!r}, "
+                             f"fly raises {h['exc'][0]}: {h['exc'][1]!r}")
+                      if h['kind'] == 'attrctx' and h['context'] == p['exc'] and not guarded:
+                          sig = F15_SIG
+                      break
+                  if h['kind'] == 'attrctx' or (p is None and h['code'] not in DOCUMENTED):
+                      bad = f"flight {j} ({fl['kind']}): rejected with an unrelated internal error {h['exc'][0]}: {h['exc'][1]!r}"
+                      if h['code'] == 8 and fl.get('given') is not None and not gfix:
+                          sig = FC17A_SIG
+                      break
+              # (d) mass iteration
+              if h['kind'] == 'flown' and opts['iterate'] and not (h['leftover'] < opts['reltol']):
+                  bad = (f"flight {j} ({fl['kind']}): returned with leftover trip fuel {h['leftover']:.3e} of the fuel load, "
+                         f"tolerance {opts['reltol']:.1e}")
+                  break
+              # (e) a starting mass handed in is the one flown (no iteration)
+              if h['kind'] == 'flown' and fl.get('given') is not None and not opts['iterate'] \
+                      and float.fromhex(h['snap']['meta'][3]) != fl['given']:
+                  bad = f"flight {j}: starting mass {fl['given']} handed in, trajectory reports {float.fromhex(h['snap']['meta'][3])}"
+                  break
+            if bad is not None:
+                problems.append((bad, sig))
+        bad = None
+        if bad is None and alias is not None:
+            bad = alias
+        if bad is None:
+            last = fresh[-1]
+            if (before['kind'], before.get('snap'), before.get('exc')) != (last['kind'], last.get('snap'), last.get('exc')):
+                bad = ('the last flight of the sequence on a fresh builder gives a different result before and after '
+                       'the other flights were flown (state outside the builder)')
         if bad is not None:
-            chk.fail(bad, {'seq': seq}, signature=sig)
-        # model vs implementation (against the reading of the finally clause this tree has)
+            problems.append((bad, None))
+        for msg, sg in problems:
+            chk.fail(msg, {'seq': seq}, signature=sg)
+        # model vs implementation (against the readings this tree has)
         if mo is None:
             continue
         shown, ctx_none, leftovers = mo
@@ -347,6 +440,16 @@ def check_sequences(chk: Check, seqs, guarded: bool, wx: Path):
             chk.traces_validated += 1
 
 
+def behaviour_given_fix() -> bool:
+    """True iff a handed-in starting mass flies (the fuel load is derived either way)."""
+    b = make_builder({'iterate': False, 'max_iters': 5, 'reltol': 1e-2, 'use_weather': False, 'frac': [0.02] * 3})
+    try:
+        b.fly(c02.perf_model(None), mission_of({'o': 'BOS', 'd': 'LAX', 'lf': 1.0}), starting_mass=70000.0)
+    except TypeError:
+        return False
+    return True
+
+
 def behaviour_guarded() -> bool:
     """True iff an unknown airport on a fresh builder surfaces as the constructor's ValueError."""
     b = make_builder({'iterate': False, 'max_iters': 5, 'reltol': 1e-2, 'use_weather': False, 'frac': [0.02] * 3})
@@ -357,6 +460,48 @@ def behaviour_guarded() -> bool:
     except ValueError:
         return True
     return True
+
+
+REFERENCE_FLIGHTS = [
+    {'kind': 'valid', 'o': 'BOS', 'd': 'LAX', 'lf': 1.0, 'table': TABLES[1],
+     'opts': {'iterate': False, 'max_iters': 5, 'reltol': 1e-2, 'use_weather': False, 'frac': [0.02, 0.02, 0.02]}},
+    {'kind': 'valid', 'o': 'SEA', 'd': 'DEN', 'lf': 0.9, 'table': TABLES[2],
+     'opts': {'iterate': True, 'max_iters': 8, 'reltol': 5e-2, 'use_weather': False, 'frac': [0.02, 0.02, 0.02]}},
+]
+
+
+def fly_reference(wx: Path):
+    out = []
+    for fl in REFERENCE_FLIGHTS:
+        r = fly_once(make_builder(fl['opts']), fl, wx, fl['opts']['reltol'])
+        r.pop('traj', None)
+        out.append({'kind': r['kind'], 'snap': r.get('snap'), 'exc': r.get('exc')})
+    return out
+
+
+def check_against_fresh_process(chk: Check, wx: Path):
+    """State that lives outside the builder objects (module or class level) is shared by the 'fresh' builders of
+    this process too; so, after everything else has been flown, the reference flights are flown here and in a
+    brand-new interpreter and compared bit for bit."""
+    import subprocess
+    import sys
+    here = fly_reference(wx)
+    env = dict(os.environ, C17_REFERENCE_TMP=str(chk.tmp), PYTHONPATH=str(REPO / 'src') + os.pathsep + str(VERIF))
+    r = subprocess.run(['timeout', '300', sys.executable, '-m', 'harness.c17'], cwd=VERIF, env=env,
+                       capture_output=True, text=True)
+    chk.count('reference-flights-in-fresh-process', len(here))
+    try:
+        there = json.loads(r.stdout.strip().splitlines()[-1])
+    except Exception:  # noqa: BLE001
+        chk.broken('harness:fresh-process-reference', (r.stdout + r.stderr)[-1500:])
+        return
+    for fl, a, b in zip(REFERENCE_FLIGHTS, here, there):
+        if a != b:
+            chk.fail(f"{fl['o']}-{fl['d']} flown on a fresh builder at the end of this run differs from the same flight "
+                     f"in a fresh interpreter ({a.get('exc') or 'trajectory'} vs {b.get('exc') or 'trajectory'}): "
+                     'state outside the builder survives between flights', {'reference': fl}, signature=None)
+        else:
+            chk.traces_validated += 1
 
 
 def common_setup(chk: Check):
@@ -391,10 +536,17 @@ def run(chk: Check):
         if facts is not None and facts['guarded'] != beh:
             chk.broken('link:finally-clause-vs-behaviour',
                        f"extracted finally clause guarded={facts['guarded']} but an unknown airport behaves as guarded={beh}")
+        behg = behaviour_given_fix()
+        gfix = facts['given_fix'] if facts is not None else behg
+        chk.notes['given_starting_mass'] = 'fuel load derived (repaired)' if gfix else 'fuel load left None (as coded, FC17a)'
+        if facts is not None and facts['given_fix'] != behg:
+            chk.broken('link:given-mass-vs-behaviour',
+                       f"extracted given-mass handling derived={facts['given_fix']} but a given starting mass behaves as {behg}")
         seqs = load_corpus(chk)
         nw = chk.n(2, 12)
-        seqs += [gen_sequence(chk.rng, weather_ok=(i < nw)) for i in range(chk.n(40, 400))]
-        check_sequences(chk, seqs, guarded, wx)
+        seqs += [gen_sequence(chk.rng, weather_ok=(i < nw)) for i in range(chk.n(32, 400))]
+        check_sequences(chk, seqs, guarded, gfix, wx)
+        check_against_fresh_process(chk, wx)
     finally:
         c02.teardown_env()
 
@@ -404,8 +556,21 @@ def replay(chk: Check, rp):
     wx = setup_env(chk)
     try:
         guarded = facts['guarded'] if facts is not None else behaviour_guarded()
+        gfix = facts['given_fix'] if facts is not None else behaviour_given_fix()
         case = rp.get('case') or {}
         if 'seq' in case:
-            check_sequences(chk, [case['seq']], guarded, wx)
+            check_sequences(chk, [case['seq']], guarded, gfix, wx)
+        elif 'reference' in case:
+            check_sequences(chk, load_corpus(chk), guarded, gfix, wx)      # something to have been flown before
+            check_against_fresh_process(chk, wx)
     finally:
         c02.teardown_env()
+
+
+if __name__ == '__main__':            # the fresh-interpreter side of check_against_fresh_process
+    import types
+    from harness import common as _common
+    _common.setup_impl_env()
+    _chk = types.SimpleNamespace(tmp=Path(os.environ['C17_REFERENCE_TMP']))
+    _wx = setup_env(_chk)
+    print(json.dumps(fly_reference(_wx)))
